@@ -23,6 +23,7 @@ ASSUMPTIONS = ['raw mixture count observed through a harness-side wrapper of mod
                'min-sep of a group for the layer clause = bin of the group\'s reported base (exclusion empty there)',
                'crashes of run() are left to C08']
 BUDGET = {'quick': 1300, 'thorough': 25000}
+CORPUS = 'pipeline'
 WEIGHTS = {'merge_chain': 6, 'split_candidate': 6, 'double_split': 3, 'tie_split': 5, 'limit_crossing': 3, 'layered': 2, 'ref_window': 1}
 
 
